@@ -675,6 +675,14 @@ func (o *operation) handle() {
 	// And finally we can define the transformed request bodies.
 	switch {
 	case skipBody:
+		if o.clientEnveloper != nil && !o.methodConf.descriptor.IsStreamingClient() {
+			// The message the request line was built from must have been the only one. What
+			// else the client's stream holds is checked, not just discarded.
+			if err := o.checkNoFurtherRequestMessage(); err != nil {
+				rw.reportError(err)
+				return
+			}
+		}
 		// drain any contents of body so downstream handler sees empty
 		o.drainBody(o.request.Body)
 	case reframeOnly:
@@ -878,6 +886,24 @@ func (o *operation) messageLimit() int64 {
 		return math.MaxInt64 - 1
 	}
 	return int64(o.methodConf.maxMsgBufferBytes)
+}
+
+// checkNoFurtherRequestMessage reads the rest of an enveloped request whose one
+// message has already been consumed: anything but a clean end of the stream is
+// an error (a cut or invalid envelope, or a second message).
+func (o *operation) checkNoFurtherRequestMessage() error {
+	var envBuf envelopeBytes
+	_, err := io.ReadFull(o.request.Body, envBuf[:])
+	if errors.Is(err, io.EOF) {
+		return nil
+	}
+	if err != nil {
+		return malformedRequestError(err)
+	}
+	if _, _, err := o.processRequestEnvelope(envBuf); err != nil {
+		return err
+	}
+	return malformedRequestError(errUnaryRequestHasMultipleMessages)
 }
 
 func (o *operation) drainBody(body io.ReadCloser) {
